@@ -364,11 +364,16 @@ PROPS = {
                  "crate's own neighbour tables), that cell present, weights >= 0 summing to 1, weight 1 at the centre, the barycentre identity "
                  "in integer cell coordinates when the four cells share a base cell, and a duplicated cell only next to a missing cardinal "
                  "neighbour with weight 0. TLC generates all cells of small depths and base-cell corner / border classes (7 positions each: centre, "
-                 "the four quadrants, near two borders); recorded random positions at all depths are validated by the trace spec.",
+                 "the four quadrants, near two borders); recorded random positions at all depths are validated by the trace spec. Bilinear.tla "
+                 "transcribes the four quarters and the four missing-neighbour branches on exact rationals over the GEOMETRIC adjacency; "
+                 "MC_Bilinear shows on every cell of N in {1,2,4} (1,2,3,4,5,8 thorough) and every lattice offset that the weights are >= 0, sum to 1, "
+                 "give 1 at the centre, satisfy the barycentre identity inside a base cell and that a duplicated cell is the position's cell with "
+                 "weight 0 next to a three-cell point.",
         "rule": "events = bilinear_interpolation(position) with the cell of hash_with_dxdy; non-trivial = non-uniform classes",
         "assumptions": GEO_ASSUME,
         "stages": [
             {"kind": "mc", "module": "MC_Geo", "cfg": {"quick": "MC_Geo.cfg", "thorough": "MC_Geo_thorough.cfg"}, "workers": 6},
+            {"kind": "mc", "module": "MC_Bilinear", "cfg": {"quick": "MC_Bilinear.cfg", "thorough": "MC_Bilinear_thorough.cfg"}, "workers": 4},
             {"kind": "gentrace", "module": "Gen_Neigh", "cfg": {"quick": "Gen_Neigh.cfg", "thorough": "Gen_Neigh_thorough.cfg"}, "scenario": "C19",
              "trace_module": "Trace_Geo", "trace_cfg": "Trace_Geo.cfg", "exhaustive": True},
             {"kind": "rec", "profiles": ["release", "debug"], "scenario": "C19", "count": {"quick": 12000, "thorough": 300000}, "trace_module": "Trace_Geo", "trace_cfg": "Trace_Geo.cfg",
